@@ -57,7 +57,7 @@ def main():
     model = V.ocaml_build("api")
     env = V.san_env()
     data = os.path.join(V.REPO, "test-dev", "data")
-    mods = [os.path.join(data, m) for m in ("ode2ptk.mod", "test.xm", "test.it", "storlek_05.it", "m/panic.s3m", "m/reborning.med", "m/IMS.beast-busters1.st")]
+    mods = [os.path.join(data, m) for m in ("ode2ptk.mod", "test.xm", "test.it", "storlek_05.it", "m/panic.s3m", "m/reborning.med", "m/IMS.beast-busters1.st", "G00_nosuck.it", "../openmpt/it/CarryNNA.it")]      # the last two use virtual channels (new-note actions)
     mods = [m for m in mods if os.path.exists(m)]
     wav = os.path.join(data, "blip.wav")
     if not os.path.exists(wav):
@@ -70,6 +70,32 @@ def main():
         hists = [json.load(open(os.path.join(cdir, f)))["history"] for f in sorted(os.listdir(cdir))] if os.path.isdir(cdir) else []
         nh = 250 if tier == "quick" else 6000
         hists += [gen_history(rng, mods, wav, rng.choice([20, 60, 120])) for _ in range(nh)]
+    if not replay:
+        # boundary motifs: (1) channel arguments around every limit the call could be checked against (module channels, XMP_MAX_CHANNELS,
+        # virtual channels = tracks + voices), while playing each module; (2) xmp_set_row while another position is pending, on modules
+        # whose patterns have different lengths (the row is to be judged against the pattern of the pending position)
+        import tempfile
+        sys.path.insert(0, os.path.join(V.VERIF, "gen")); import modgen
+        gdir = tempfile.mkdtemp(prefix="vp-c05-", dir="/var/tmp"); gmods = []
+        for k, rows in enumerate(((16, 64), (64, 16), (1, 100, 32))):
+            for fmt in ("xm", "it"):
+                song = dict(chn=4, orders=list(range(len(rows))), patterns=[modgen.empty_pattern(r, 4) for r in rows], speed=3, bpm=125, name="gen")
+                gp = os.path.join(gdir, "rows%d.%s" % (k, fmt)); open(gp, "wb").write(modgen.WRITERS[fmt](song)); gmods.append(gp)
+        chans = (-1, 0, 3, 4, 31, 32, 62, 63, 64, 65, 66, 100, 127, 128, 129, 130, 131, 132, 195, 196, 255, 256)
+        for m in mods + gmods[:2]:
+            h = ["LOAD %s" % m, "START 44100 0", "PF", "PF"]
+            for c in chans: h += ["INJ %d" % c, "MUTE %d 1" % c, "MUTE %d -1" % c, "VOL %d 50" % c, "VOL %d -1" % c]
+            h += ["PF"] + ["GET %d" % k for k in range(14)]
+            # an event injected on a channel the call must ignore may not land anywhere: read everything back after each one
+            for c in list(range(60, 140)) + [195, 196, 197, 1000, 100000]: h += ["INJ %d" % c] + (["GET %d" % k for k in range(14)] if c % 4 == 0 else [])
+            h += ["GET %d" % k for k in range(14)] + ["MUTE %d -1" % c for c in (0, 1, 63)] + ["VOL %d -1" % c for c in (0, 1, 63)] + ["PF", "END", "REL"]
+            hists.append(h)
+        for m in gmods:
+            h = ["LOAD %s" % m, "START 22050 0", "PF", "PF", "PF"]
+            for r in (0, 1, 15, 16, 17, 31, 32, 63, 64, 99, 100):
+                h += ["SP 1", "PF", "PF", "RST", "SR %d" % r, "PF", "SP 1", "SR %d" % r, "PF", "SP 0", "SR %d" % r, "PF", "NEXT", "SR %d" % r, "PF", "PREV", "SR %d" % r, "PF",
+                      "SP 2", "SR %d" % r, "PF", "STOP", "SR %d" % r, "PF", "START 22050 0", "SEEK 100000", "SR %d" % r, "PF"]
+            hists.append(h)
     nd = 0
     callhist = {}
     rethist = {}
